@@ -325,7 +325,7 @@ Lemma evals_v_last orc c pts : forall m vl,
   snd (evals_v orc c pts m vl) =
     match pts with [] => vl | _ :: _ => clipv (o_v orc (mk m + length pts - 1)%nat) (molv c) end.
 Proof.
-  induction pts as [|x t IH]; intros m vl; cbn [evals_v length].
+  induction pts as [|x t IH]; intros m vl; cbn [evals_v length fst snd].
   - split; [lia|reflexivity].
   - unfold solve_v. destruct (IH (tick m) (clipv (o_v orc (mk m)) (molv c))) as (A & B).
     rewrite A, B. cbn [tick mk]. split; [lia|].
@@ -358,13 +358,13 @@ Proof.
   unfold call_bubble, call_dew, solve_v. cbn [ms mset mk tick fst snd].
   destruct (o_bubble orc (mk m)) as [Xb yb]. destruct (o_dew orc (S (mk m))) as [Xd xd]. cbn [fst snd].
   destruct (refresh_K_raises c V _ _); [intros E; inversion E|].
-  replace (S (S (mk m))) with (k + 2)%nat by (unfold k; lia).
+  replace (S (S (S (S (mk m))))) with (k + 4)%nat by (unfold k; lia).
   replace (S (S (S (mk m)))) with (k + 3)%nat by (unfold k; lia).
+  replace (S (S (mk m))) with (k + 2)%nat by (unfold k; lia).
   fold Vb.
   assert (C1 : qltb V Vb = false) by (apply qltb_false; exact HB). rewrite C1.
   cbn [ms mset mk tick fst snd]. fold Vd.
   assert (C2 : qltb Vd V = false) by (apply qltb_false; exact HD). rewrite C2.
-  replace (S (S (S (S (mk m))))) with (k + 4)%nat by (unfold k; lia).
   unfold xv_last.
   destruct (o_iq orc (k + 4)%nat) as [pts X] eqn:EQ. cbn [fst snd].
   match goal with |- context [evals_v orc c pts ?m0 ?v0] =>
@@ -377,3 +377,125 @@ Proof.
   - f_equal. rewrite B. destruct pts as [|p pts]; [reflexivity|]. cbn [length]. f_equal. f_equal. unfold k. lia.
   - rewrite A. unfold k. lia.
 Qed.
+
+(* ------------------------------------------------------------------ P,H: the correction reproduces H when H is linear in the flows *)
+Lemma clamp_mid x : qeqb (clamp_f x) 0 = false -> qeqb (clamp_f x) 1 = false -> clamp_f x = x.
+Proof.
+  unfold clamp_f. destruct (qltb x 0); [intros A; discriminate|].
+  destruct (qltb 0 x); [|intros A; discriminate].
+  destruct (qltb 1 x); [intros _ A; discriminate|reflexivity].
+Qed.
+
+Lemma veq_scatter_add (c : ctx) (a b : vec) (f : Q) :
+  NoDup (idx c) -> (forall i, In i (idx c) -> (i < length a)%nat) -> length a = length b ->
+  veq (scatter (idx c) (vadd (gather (idx c) a) (vscale f (gather (idx c) (only_idx c b)))) a)
+      (vadd a (vscale f (only_idx c b))) /\
+  veq (scatter (idx c) (vsub (gather (idx c) a) (vscale f (gather (idx c) (only_idx c b)))) a)
+      (vsub a (vscale f (only_idx c b))).
+Proof.
+  intros ND RG L.
+  assert (Lo : length (only_idx c b) = length b) by (unfold only_idx; rewrite map_length, seq_length; reflexivity).
+  assert (Lg : length (vscale f (gather (idx c) (only_idx c b))) = length (gather (idx c) a))
+    by (rewrite vscale_length, !gather_length; reflexivity).
+  assert (Ls : length a = length (vscale f (only_idx c b))) by (rewrite vscale_length; congruence).
+  assert (PT : forall k, (k < length a)%nat ->
+     match pos k (idx c) with Some p => nthq (gather (idx c) a) p = nthq a k /\
+        nthq (gather (idx c) (only_idx c b)) p = nthq (only_idx c b) k
+     | None => nthq (only_idx c b) k = 0 end).
+  { intros k Hk. destruct (pos k (idx c)) as [p|] eqn:E.
+    - apply pos_some in E. destruct E as (Hp & Hn). rewrite !nthq_gather by exact Hp. rewrite Hn. auto.
+    - unfold only_idx. rewrite nthq_map_seq by lia. rewrite E. reflexivity. }
+  split; split.
+  - rewrite scatter_length. unfold vadd. rewrite map2_length; auto.
+  - intros k. destruct (Nat.lt_ge_cases k (length a)) as [Hk|Hk].
+    + rewrite nthq_scatter by exact Hk. rewrite (nthq_vadd a) by exact Ls. rewrite nthq_vscale.
+      specialize (PT k Hk). destruct (pos k (idx c)) as [p|].
+      * destruct PT as (A & B). rewrite nthq_vadd by (symmetry; exact Lg). rewrite nthq_vscale, A, B. reflexivity.
+      * rewrite PT. lra.
+    + rewrite !nthq_over; [reflexivity| |]. unfold vadd; rewrite map2_length; auto. rewrite scatter_length; exact Hk.
+  - rewrite scatter_length. unfold vsub. rewrite map2_length; auto.
+  - intros k. destruct (Nat.lt_ge_cases k (length a)) as [Hk|Hk].
+    + rewrite nthq_scatter by exact Hk. rewrite (nthq_vsub a) by exact Ls. rewrite nthq_vscale.
+      specialize (PT k Hk). destruct (pos k (idx c)) as [p|].
+      * destruct PT as (A & B). rewrite nthq_vsub by (symmetry; exact Lg). rewrite nthq_vscale, A, B. reflexivity.
+      * rewrite PT. lra.
+    + rewrite !nthq_over; [reflexivity| |]. unfold vsub; rewrite map2_length; auto. rewrite scatter_length; exact Hk.
+Qed.
+
+Section PHLinear.
+Variable orc : oracle.
+Variable c : ctx.
+Variables T P : Q.
+Variables HL HG : vec -> Q.      (* enthalpy of a liquid / gas flow vector at (T, P) *)
+Variable HR : list vec -> Q.     (* contribution of the other phases *)
+Hypothesis HL_ext : forall a b, veq a b -> HL a == HL b.
+Hypothesis HG_ext : forall a b, veq a b -> HG a == HG b.
+Hypothesis HL_add : forall a b f, length a = length b -> HL (vadd a (vscale f b)) == HL a + f * HL b.
+Hypothesis HL_sub : forall a b f, length a = length b -> HL (vsub a (vscale f b)) == HL a - f * HL b.
+Hypothesis HG_add : forall a b f, length a = length b -> HG (vadd a (vscale f b)) == HG a + f * HG b.
+Hypothesis HG_sub : forall a b f, length a = length b -> HG (vsub a (vscale f b)) == HG a - f * HG b.
+Hypothesis xH_lin : forall k s, o_xH orc k s T P == HL (liq s) + HG (vap s) + HR (oth s).
+Hypothesis Hp_l : forall k mol, o_Hp orc k false mol T P == HL mol.
+Hypothesis Hp_g : forall k mol, o_Hp orc k true mol T P == HG mol.
+
+Definition H_of (s : vst) : Q := HL (liq s) + HG (vap s) + HR (oth s).
+
+Lemma correct_exact_lemma H m :
+  wf (ms m) -> NoDup (idx c) -> (forall i, In i (idx c) -> (i < length (liq (ms m)))%nat) ->
+  let m' := correct orc c T P H m in
+  (H_of (ms m') == H /\ sT (ms m') = T) \/
+  (exists k s, ms m' = with_T s (o_solveT orc k s H T P)).
+Proof.
+  intros W ND RG. unfold correct, call_Hp, call_xH, call_solveT. cbn [ms mset tick mk fst snd].
+  set (s := with_T (ms m) T).
+  assert (Ws : length (liq s) = length (vap s)) by exact W.
+  assert (RGv : forall i, In i (idx c) -> (i < length (vap s))%nat) by (intros i Hi; rewrite <- Ws; apply RG; exact Hi).
+  destruct (qltb H (o_xH orc (S (S (mk m))) s T P)) eqn:C.
+  - (* condense *)
+    match goal with |- context [qzerob ?hc] => set (Hc := hc) end.
+    destruct (qzerob Hc) eqn:Z; cbn [fst snd ms mset tick mk].
+    { right. eexists. eexists. reflexivity. }
+    apply qzerob_false in Z.
+    match goal with |- context [clamp_f ?x0] => set (x := x0); set (f := clamp_f x) end.
+    destruct (qltb 0 f) eqn:F0; cbn [fst snd ms mset tick mk].
+    2:{ pose proof (clamp_f_01 x) as B. fold f in B. apply qltb_false in F0.
+        assert (E0 : qeqb f 0 = true) by (apply qeqb_true; lra). rewrite E0. cbn [orb].
+        right. eexists. eexists. reflexivity. }
+    destruct (qeqb f 0 || qeqb f 1) eqn:F1; cbn [fst snd ms mset tick mk].
+    { right. eexists. eexists. reflexivity. }
+    left. apply orb_false_iff in F1. destruct F1 as (F1 & F2).
+    assert (Ef : f = x) by (apply clamp_mid; assumption).
+    split; [|reflexivity].
+    unfold H_of, write2. cbn [liq vap oth with_flows].
+    destruct (veq_scatter_add c (liq s) (vap s) f ND RG Ws) as (VA & _).
+    destruct (veq_scatter_add c (vap s) (vap s) f ND RGv eq_refl) as (_ & VS).
+    rewrite (HL_ext _ _ VA), (HG_ext _ _ VS).
+    assert (Lo : length (only_idx c (vap s)) = length (vap s)) by (unfold only_idx; rewrite map_length, seq_length; reflexivity).
+    rewrite HL_add by congruence. rewrite HG_sub by congruence.
+    assert (FX : f * Hc == H - o_xH orc (S (S (mk m))) s T P) by (rewrite Ef; unfold x; field; exact Z).
+    unfold Hc in FX. rewrite Hp_l, Hp_g in FX. rewrite xH_lin in FX. lra.
+  - (* vaporise *)
+    match goal with |- context [qzerob ?hc] => set (Hc := hc) end.
+    destruct (qzerob Hc) eqn:Z; cbn [fst snd ms mset tick mk].
+    { right. eexists. eexists. reflexivity. }
+    apply qzerob_false in Z.
+    match goal with |- context [clamp_f ?x0] => set (x := x0); set (f := clamp_f x) end.
+    destruct (qltb 0 f) eqn:F0; cbn [fst snd ms mset tick mk].
+    2:{ pose proof (clamp_f_01 x) as B. fold f in B. apply qltb_false in F0.
+        assert (E0 : qeqb f 0 = true) by (apply qeqb_true; lra). rewrite E0. cbn [orb].
+        right. eexists. eexists. reflexivity. }
+    destruct (qeqb f 0 || qeqb f 1) eqn:F1; cbn [fst snd ms mset tick mk].
+    { right. eexists. eexists. reflexivity. }
+    left. apply orb_false_iff in F1. destruct F1 as (F1 & F2).
+    assert (Ef : f = x) by (apply clamp_mid; assumption).
+    split; [|reflexivity].
+    unfold H_of, write2. cbn [liq vap oth with_flows].
+    destruct (veq_scatter_add c (liq s) (liq s) f ND RG eq_refl) as (_ & VS).
+    destruct (veq_scatter_add c (vap s) (liq s) f ND RGv (eq_sym Ws)) as (VA & _).
+    rewrite (HL_ext _ _ VS), (HG_ext _ _ VA).
+    assert (Lo : length (only_idx c (liq s)) = length (liq s)) by (unfold only_idx; rewrite map_length, seq_length; reflexivity).
+    rewrite HL_sub by congruence. rewrite HG_add by congruence.
+    assert (FX : f * Hc == H - o_xH orc (S (S (mk m))) s T P) by (rewrite Ef; unfold x; field; exact Z).
+    unfold Hc in FX. rewrite Hp_l, Hp_g in FX. rewrite xH_lin in FX. lra.
+Qed.
+End PHLinear.
